@@ -33,9 +33,10 @@ from props import c01 as c01p
 ID = "C08"
 PROPS_FILES = ["Gama/Props/C08.lean", "Gama/Props/C08Solvers.lean", "Gama/Props/C08Net.lean",
                "Gama/Props/C08SvdDecompose.lean", "Gama/Props/C08ProjectEquations.lean",
-               "Gama/Props/C08NetWitness.lean"]
+               "Gama/Props/C08NetWitness.lean", "Gama/Props/C08InputGap.lean"]
 LEAN_TARGETS = ["Gama.Props.C08", "Gama.Props.C08Solvers", "Gama.Props.C01.Spec", "Gama.Props.C08Net",
-                "Gama.Props.C08SvdDecompose", "Gama.Props.C08ProjectEquations", "Gama.Props.C08NetWitness"]
+                "Gama.Props.C08SvdDecompose", "Gama.Props.C08ProjectEquations", "Gama.Props.C08NetWitness",
+                "Gama.Props.C08InputGap"]
 DRIVERS = ["drv_ls", "drv_minx"]
 RULE = ("ls: free problems (defect>0; dense with planted dependent columns, levelling graphs incl. disconnected; unit / "
         "diagonal / banded SPD covariance) x up to 4 regularisation subsets that resolve the defect (exact rational "
@@ -215,6 +216,40 @@ def pair_oracle(p, A, a1, a2):
     return bad, max(dr / sc, dk / (sc * anorm))
 
 
+def exact_x_verdict(p, S, impl_line, model_line, corr=None):
+    """the x lines of implementation and model differ by more than the componentwise 1e-9 of the stream's comparator.
+    Both are then measured against the EXACT minimum-S-norm solution x* (rational arithmetic, gen_ls.reference) in the
+    norm a linear solver is accurate in: max_i |x_i - x*_i| <= tol * (1 + max_i |x*_i|) with
+    tol = min(eps * kappa, 1e-7), kappa = |N|_inf * |Q|_inf (N = A'PA, Q its regularised inverse, both exact): eps*kappa
+    is the first-order forward error of a backward-stable solution of the normal equations.  Accepted only when the
+    problem IS ill conditioned (eps * kappa >= 1e-9, i.e. kappa >= 4.5e6: below that rounding cannot explain a miss of
+    1e-9 and the case stays a disagreement) and BOTH sides are that close to x* (thorough run 3: 17 x 19 'parts'
+    problem, banded covariance of width 15, kappa = 7.3e9, cond_2(A'PA) = 3e9: implementation and model 1.3e-8
+    componentwise / 2e-10 normwise from x*, on opposite sides).  returns (accepted, explanation)"""
+    xi, xm = vec(impl_line), vec(model_line)
+    if xi is None or xm is None or len(xi) != p["n"] or len(xm) != p["n"]:
+        return False, "x not answered by both sides"
+    try:
+        ref = g.reference(p, S)
+    except (ZeroDivisionError, IndexError):
+        return False, "no exact reference (subset does not resolve the defect)"
+    xe = ref["x"]
+    kappa = float(max(sum(abs(v) for v in r) for r in ref["N"]) * max(sum(abs(v) for v in r) for r in ref["Q"]))
+    tol = min(1e-7, 2.2e-16 * kappa)
+    scale = 1.0 + float(max(abs(v) for v in xe))
+    di = max(abs(float(F(a) - e)) for a, e in zip(xi, xe)) / scale
+    dm = max(abs(float(F(a) - e)) for a, e in zip(xm, xe)) / scale
+    if corr is not None:
+        corr.maxstat("ls_x_judged_max_kappa", kappa)
+        corr.maxstat("ls_x_judged_max_dev_impl", di)
+        corr.maxstat("ls_x_judged_max_dev_model", dm)
+    why = (f"against the exact solution: implementation {di:.3g}, model {dm:.3g} (normwise, relative), "
+           f"tolerance {tol:.3g} = eps*kappa, kappa = {kappa:.3g}")
+    if tol < 1e-9:
+        return False, "problem is well conditioned (rounding does not explain the difference); " + why
+    return (di <= tol and dm <= tol), why
+
+
 def ls_stream(ctx, corr, nprob, exe=None, with_model=True):
     exe = exe or harness(ctx)
     cases, meta, groups = make_ls_cases(ctx, nprob)
@@ -239,17 +274,26 @@ def ls_stream(ctx, corr, nprob, exe=None, with_model=True):
             corr.fail("solver crashed / sanitizer report", {"stream": "ls", "ops": c}, site, crashes[i][1])
             continue
         if model is not None:
-            nm = False
-            for a, b in zip(impl[i], model[i]):
+            nm, miss = False, []
+            for k, (a, b) in enumerate(zip(impl[i], model[i])):
                 if b == "not-modelled":
                     nm = True
                     continue
                 if not lines_equal(a, b, rtol=1e-9, atol=1e-9):
-                    corr.disagree("ls", c, impl[i], model[i], site)
-                    break
-            else:
-                if len(impl[i]) != len(model[i]):
-                    corr.disagree("ls", c, impl[i], model[i], "length")
+                    miss.append(k)
+            if miss == [2] and len(impl[i]) == len(model[i]) and corr.stats.get("ls_x_judged_by_exact_reference", 0) < 60:
+                # only the x line misses the componentwise 1e-9 comparison: model or implementation wrong, or rounding on
+                # an ill-conditioned problem?  decided against the EXACT solution (see exact_x_verdict); never silently
+                corr.count("ls_x_judged_by_exact_reference")
+                ok, why = exact_x_verdict(p, S, impl[i][2], model[i][2], corr)
+                if ok:
+                    corr.count("ls_x_rounding_on_ill_conditioned_problem")
+                else:
+                    corr.disagree("ls", c, impl[i], model[i], site + ": " + why)
+            elif miss:
+                corr.disagree("ls", c, impl[i], model[i], site)
+            elif len(impl[i]) != len(model[i]):
+                corr.disagree("ls", c, impl[i], model[i], "length")
             corr.count("ls_not_modelled" if nm else "ls_modelled")
         ans = answer(impl[i])
         if isinstance(ans, str):
@@ -279,6 +323,9 @@ def ls_stream(ctx, corr, nprob, exe=None, with_model=True):
                                                "subset": meta[i][2], "subset2": meta[j][2]},
                           f"{alg}/{entry}", " | ".join(impl[i]) + "  ||  " + " | ".join(impl[j]))
     corr.count("ls_pairs_checked", npairs)
+    judged = corr.stats.get("ls_x_judged_by_exact_reference", 0)
+    if judged > max(12, len(cases) // 1000):
+        corr.inconclusive.append(f"{judged} ls cases needed the exact reference to compare x (more than 0.1% of the cases)")
     for k, need in (("ls_cases_defect_exactly_3", 60), ("ls_cases_defect_exactly_4", 60), ("ls_cases_defect_ge3_proper_subset", 120)):
         if with_model and corr.stats.get(k, 0) < need:
             corr.inconclusive.append(f"ls case mix: {k} = {corr.stats.get(k, 0)} < {need}")
@@ -357,6 +404,8 @@ def run_gama(exe, tmp, tag, gkf, alg, iterations=None):
                 res["approx"][pm.group(1).strip()] = {k.lower(): float(v) for k, v in
                                                       re.findall(r"<([xyzXYZ])>\s*([^<\s]+)\s*</\1>", pm.group(2))}
         res["has_error"] = "<error" in txt
+        me = re.search(r"<error[^>]*>(.*?)</error>", txt, re.S)
+        res["error_text"] = " / ".join(x.strip() for x in re.findall(r"<description>(.*?)</description>", me.group(1), re.S)) if me else ""
     return rc, err, res
 
 
@@ -544,6 +593,25 @@ def make_net_cases(ctx, n):
     return out
 
 
+def net_adjusted(rc, res):
+    return rc == 0 and res is not None and res.get("sum_of_squares") is not None and not res.get("has_error")
+
+
+def net_others(results, ci, si, it, alg):
+    """what the OTHER algorithms made of the same input file (same iteration mode when it was run, else the single
+    linear adjustment): recorded with a failed run so that the failure carries its own signature"""
+    out = {}
+    for a2 in NET_ALGS:
+        key = next((k for k in ((ci, si, a2, it), (ci, si, a2, 0)) if k in results), None)
+        if a2 == alg or key is None:
+            continue
+        rc2, err2, res2 = results[key][1]
+        res2 = res2 or {}
+        out[a2] = {"iterations": key[3], "adjusted": net_adjusted(rc2, res2 or None), "defect": res2.get("defect"),
+                   "dof": res2.get("dof"), "sum_of_squares": res2.get("sum_of_squares"), "error": res2.get("error_text", "")}
+    return out
+
+
 def net_stream(ctx, corr, n, gama_dir=None):
     gama_dir = gama_dir or ctx.build_gama(sanitize=False, targets=("gama-local",))
     exe = Path(gama_dir) / "gama-local"
@@ -577,11 +645,18 @@ def net_stream(ctx, corr, n, gama_dir=None):
                     corr.case(key=("net " + sha(gkf) + alg + str(it)),
                               sample={"family": c["fam"], "sets": c["sets"]} if ci == 0 and alg == "envelope" and it == 0 else None)
                     corr.count("net_family_" + c["fam"])
-                    if rc != 0 or res is None or res.get("sum_of_squares") is None or res.get("has_error"):
+                    if not net_adjusted(rc, res):
                         corr.fail(f"gama-local did not adjust a free network with an admissible constraint set ({label}): rc={rc}",
-                                  {"stream": "net", "family": c["fam"], "gkf": gkf, "alg": alg, "iterations": it},
+                                  {"stream": "net", "family": c["fam"], "gkf": gkf, "alg": alg, "iterations": it,
+                                   "error": (res or {}).get("error_text", ""), "expected_defect": c["defect"],
+                                   "others": net_others(results, ci, si, it, alg)},
                                   "LocalNetwork", err)
-                        skip = "failed"
+                        if classify(ctx, corr.failures[-1]) == "F22":
+                            # the envelope run is lost to the known finding; the property is still checked on the
+                            # runs of the other algorithms (both constraint sets)
+                            corr.count("net_envelope_runs_lost_to_F22")
+                        else:
+                            skip = "failed"
                         continue
                     if res.get("defect") != c["defect"]:
                         skip = skip or f"defect {res.get('defect')} (expected {c['defect']})"
@@ -690,8 +765,11 @@ XY_KINDS = ("Direction", "Distance", "Angle", "S_Distance", "Azimuth", "Xdiff", 
 
 def minx_sim(st, obs, flags):
     """generator-side prediction of one project_equations() call (structure only): returns (statuses, safe);
-    safe = no adjusted xy point is left with observations to exactly one other point (for such a point the
-    NUMERIC half of singular_coords, which the model takes as a parameter, may fire)"""
+    safe = for no adjusted xy point the NUMERIC half of singular_coords (1 - |cos(column x, column y)| < 1e-12,
+    which the model takes as a parameter) may fire: the point is not left with observations to exactly one other
+    point, and the rows it takes part in have at least two different gradient directions with respect to its own
+    xy (thorough run 3: a point that was only the TARGET of two angles measured at one station has both rows
+    perpendicular to the same ray — parallel columns, removed by the numeric test although it has three neighbours)"""
     st = [list(x) for x in st]
 
     def act(k):
@@ -712,16 +790,29 @@ def minx_sim(st, obs, flags):
             if len(set(obs[k][4] for k in ds)) < 2:
                 on = [k for k in on if k not in ds]
         nb = {p: set() for p in range(len(st))}
+        grad = {p: set() for p in range(len(st))}     # gradient directions of the point's rows w.r.t. its own (x, y)
         for k in on:
             a, kd, sp, pf, pt, pfs = obs[k]
             if kd in XY_KINDS or kd == "Z_Angle":
                 ends = [pf] if kd in ("X", "Y") else [pf, pt] + ([pfs] if kd == "Angle" else [])
                 for e in ends:
                     nb[e] |= set(x for x in ends if x != e) or {-1}
+            if kd in ("Distance", "S_Distance", "Z_Angle"):          # along the ray to the other end
+                grad[pf].add(("along", pt))
+                grad[pt].add(("along", pf))
+            elif kd in ("Direction", "Azimuth"):                     # perpendicular to the ray to the other end
+                grad[pf].add(("perp", pt))
+                grad[pt].add(("perp", pf))
+            elif kd == "Angle":                                      # targets: perpendicular to the ray to the station
+                grad[pf].add(("angle", frozenset((pt, pfs))))
+                grad[pt].add(("perp", pf))
+                grad[pfs].add(("perp", pf))
         removed = False
         for p in range(len(st)):
             if st[p][0] in ("a", "c"):
                 if len(nb[p]) == 1 or any(obs[k][1] in ("X", "Y", "Xdiff", "Ydiff") for k in on if p in obs[k][3:5]):
+                    return st, False
+                if nb[p] and len(grad[p]) < 2:
                     return st, False
                 if not nb[p]:
                     st[p][0] = "u"
@@ -999,6 +1090,40 @@ def correspond(ctx, corr):
         corr.inconclusive.append("too few free networks in which an outlying observation was removed (project_equations twice)")
     if checked < 0.6 * total:
         corr.inconclusive.append(f"only {checked}/{total} generated networks had the expected datum defect")
+
+
+def classify(ctx, failure):
+    """F22 (recorded under C02/C20, root cause shared with C09-F2, C10-TINY, C19-envelope-defect-undercount):
+    Envelope::cholDec decides the rank with the ABSOLUTE pivot tolerance sqrt(eps) and no pivoting; on a free
+    trilateration network the rounding residue of a dependent pivot can stay above it, the defect is counted 2 instead
+    of 3 (solver level: corpus/C08/f22-envelope-2d-dist-7pt.ops — env `defect` 2, chol/gso/svd 3), the cofactors
+    explode and LocalNetwork strips every point.  Recognised by its own signature, nothing else is excused:
+      * net stream, the failed run is --algorithm envelope, exit status 0, the XML carries the error
+        'No unknowns have been defined';
+      * the input is a free network (constrained coordinates, no fixed point);
+      * cholesky, gso AND svd all adjusted the very same file, each with the expected datum defect and the same
+        degrees of freedom, and with the same sum of squares wherever they ran in the same iteration mode."""
+    inp = failure.replay if isinstance(failure.replay, dict) else {}
+    if inp.get("stream") != "net" or inp.get("alg") != "envelope" or not failure.what.endswith("rc=0") \
+            or not failure.what.startswith("gama-local did not adjust a free network with an admissible constraint set") \
+            or not (inp.get("error") or "").endswith("No unknowns have been defined"):
+        return None
+    gkf = inp.get("gkf", "")
+    if not re.search(r'adj="[XYZ]+"', gkf) or re.search(r'fix="', gkf):
+        return None
+    others = inp.get("others") or {}
+    if set(others) != {"cholesky", "gso", "svd"}:
+        return None
+    if not all(o.get("adjusted") and o.get("defect") == inp.get("expected_defect") and o.get("dof") is not None
+               for o in others.values()):
+        return None
+    if len({o["dof"] for o in others.values()}) != 1:
+        return None
+    for a, b in itertools.combinations(others.values(), 2):
+        if a["iterations"] == b["iterations"] and \
+                abs(a["sum_of_squares"] - b["sum_of_squares"]) > 1e-9 + 1e-6 * abs(a["sum_of_squares"]):
+            return None
+    return "F22"
 
 
 def search(ctx, broken, corr):
